@@ -34,11 +34,11 @@ def run(v, tier, seed, replay):
     v.add("states", r.distinct)
     v.add("transitions", r.generated)
     exe = suvec.build_driver("plain")
-    FLAGSETS = [0, 1, 2, 3, 7]
+    FLAGSETS = [0, 1, 2, 3, 4, 5, 7]
     if tier == "quick":
-        plan = [((2, 3), 30), ((4, 5), 70), ((6, 3), 70), ((5, 2), 100)]
+        plan = [((2, 3), 30), ((4, 5), 70), ((2, 4), 70), ((3, 5), 100), ((6, 3), 140)]
     else:
-        plan = [((2, 3), 1), ((4, 5), 3), ((6, 3), 3), ((5, 2), 4), ((3, 6), 6), ((6, 4), 6)]
+        plan = [((2, 3), 1), ((4, 5), 3), ((2, 4), 3), ((3, 5), 4), ((6, 3), 4), ((4, 6), 6), ((6, 2), 6), ((5, 3), 6)]
     nscripts = 0
     shapes = set()
     allsegs = []
